@@ -2,7 +2,8 @@
   Netpoll.Conn.ReadFlushSync – the ordered synchronisation operations (package syncops: atomics, channel operations,
   timer operations, the sendmsg wrapper, calls of other protocol functions) that the program counters of
   Netpoll.Conn.Read (C07) and Netpoll.Conn.Flush (C08) - and the line mapping of Driver/Read.lean, Driver/Flush.lean -
-  assume for each mirrored function, as read off the code at e49c1fd+.  The k-th entry of a list is the schedule point
+  assume for each mirrored function, as read off the code at e49c1fd+ (waitRead / waitReadWithTimeout: at the D20 fix, which added the
+  re-checks of Len() after `c.status(closing)` (case poller, case user) and after a closer's error was received).  The k-th entry of a list is the schedule point
   "<function>#k" of tools/instrument.  Netpoll.Tie.ReadFlush proves `Gen.ReadFlush.sync_f = expect_f` by `decide` against
   the lists regenerated from /repo on every run; a mismatch means a mirrored function gained, lost or reordered a
   synchronisation step, i.e. the hand-written model must be re-validated (checks/c07.py, c08.py then escalate the
@@ -19,17 +20,23 @@ def expect_connection_waitRead : List String := [
   "c.waitReadWithTimeout(n,c.readTimeout)",
   "c.inputBuffer.Len()",
   "c.status(closing)",
-  "recv c.readTrigger"]
+  "c.inputBuffer.Len()",
+  "c.inputBuffer.Len()",
+  "recv c.readTrigger",
+  "c.inputBuffer.Len()"]
 
 def expect_connection_waitReadWithTimeout : List String := [
   "time.NewTimer(timeout)",
   "c.readTimer.Reset(timeout)",
   "c.inputBuffer.Len()",
   "c.status(closing)",
+  "c.inputBuffer.Len()",
+  "c.inputBuffer.Len()",
   "select",
   "recv c.readTimer.C",
   "c.inputBuffer.Len()",
   "recv c.readTrigger",
+  "c.inputBuffer.Len()",
   "c.readTimer.Stop()",
   "recv c.readTimer.C"]
 
